@@ -153,19 +153,18 @@ func runBehaviour(tr *vlib.Trace, b *beh, sum map[string]int) {
 	wg.Add(1)
 	go func() { defer wg.Done(); w.readLoop() }()
 	stopCalled := false
+	useTimer := false
 	quiesce := func() {
 		synctest.Wait()
 		tr.Emit(ev{"ev": "q", "blocked": 0, "tdone": 0})
 	}
-	quiesce()
-	for _, st := range b.Steps {
+	exec := func(st step) bool {
 		switch st.A {
 		case "send":
 			select {
 			case <-w.eof:
 				tr.Emit(ev{"ev": "note", "what": "skip send: connection closed"})
-				sum["skipped"]++
-				continue
+				return false
 			default:
 			}
 			tr.Emit(ev{"ev": "csend", "id": st.ID})
@@ -173,7 +172,7 @@ func runBehaviour(tr *vlib.Trace, b *beh, sum map[string]int) {
 				":authority", "verif", "content-type", "application/grpc", "te", "trailers")
 		case "stop":
 			if stopCalled {
-				continue
+				return false
 			}
 			stopCalled = true
 			tr.Emit(ev{"ev": "stop"})
@@ -193,6 +192,7 @@ func runBehaviour(tr *vlib.Trace, b *beh, sum map[string]int) {
 				w.pong(*d)
 			}
 		case "timer": // do not ack: the server's 5 s fallback timer fires (virtual time)
+			useTimer = true
 			tr.Emit(ev{"ev": "timer"})
 			time.Sleep(5*time.Second + time.Millisecond)
 		case "done":
@@ -207,8 +207,7 @@ func runBehaviour(tr *vlib.Trace, b *beh, sum map[string]int) {
 			}
 			if !started {
 				tr.Emit(ev{"ev": "note", "what": "skip done: handler not started"})
-				sum["skipped"]++
-				continue
+				return false
 			}
 			ch := w.rel(st.ID)
 			select {
@@ -217,11 +216,41 @@ func runBehaviour(tr *vlib.Trace, b *beh, sum map[string]int) {
 				close(ch)
 			}
 		}
-		sum["steps"]++
+		return true
+	}
+	quiesce()
+	for _, st := range b.Steps {
+		if exec(st) {
+			sum["steps"]++
+		} else {
+			sum["skipped"]++
+		}
 		if st.W != 0 {
 			quiesce()
 		}
 	}
+	quiesce()
+	// completion: every scenario ends with a full graceful drain, so that the clauses about the
+	// final GOAWAY and about the end of the connection are evaluated in every scenario
+	exec(step{A: "stop"})
+	quiesce()
+	if useTimer {
+		exec(step{A: "timer"})
+	} else {
+		exec(step{A: "pong"})
+	}
+	quiesce()
+	w.mu.Lock()
+	var ids []int
+	for id := range w.started {
+		ids = append(ids, id)
+	}
+	w.mu.Unlock()
+	for _, id := range ids {
+		exec(step{A: "done", ID: id})
+	}
+	quiesce()
+	time.Sleep(2 * time.Second) // lets short internal timers (e.g. the 1 s wait after loopy exits) fire
 	quiesce()
 	// end of behaviour: let everything finish
 	tr.Emit(ev{"ev": "tclose"})
